@@ -1348,14 +1348,20 @@ fn mixed_requests() -> Vec<Request> {
 
 /// The lines are loaded one add call each into ONE FilterSet; since all of them are plain blocking
 /// rules, a request is blocked exactly if the single-line engine of at least one line blocks it.
-fn check_mixed(seq: &[usize], reqs: &[Request], l: &mut Local) {
-    let case = json!({"part": "mixed", "seq": seq});
+fn check_mixed(seq: &[usize], single: u32, reqs: &[Request], l: &mut Local) {
+    let case = json!({"part": "mixed", "seq": seq, "single": single});
     let size = seq.len() as u64;
     let fmt = |hosts: bool| if hosts { FilterFormat::Hosts } else { FilterFormat::Standard };
     let built = catch(|| {
         let mut fs = FilterSet::new(true);
-        for &k in seq {
-            fs.add_filter_list(MIXED[k].0, opts(fmt(MIXED[k].1), RuleTypes::All, 0));
+        for (pos, &k) in seq.iter().enumerate() {
+            // `single` bit set for this position: the line goes through `add_filter` (one rule)
+            // instead of `add_filter_list`
+            if single & (1 << pos) != 0 {
+                let _ = fs.add_filter(MIXED[k].0, opts(fmt(MIXED[k].1), RuleTypes::All, 0));
+            } else {
+                fs.add_filter_list(MIXED[k].0, opts(fmt(MIXED[k].1), RuleTypes::All, 0));
+            }
         }
         let singles: Vec<Engine> = seq
             .iter()
@@ -1399,7 +1405,7 @@ fn check_mixed(seq: &[usize], reqs: &[Request], l: &mut Local) {
 fn replay(case: &Value, l: &mut Local) {
     if case["part"].as_str() == Some("mixed") {
         let seq: Vec<usize> = case["seq"].as_array().map(|a| a.iter().filter_map(|v| v.as_u64().map(|x| x as usize)).collect()).unwrap_or_default();
-        return check_mixed(&seq, &mixed_requests(), l);
+        return check_mixed(&seq, case["single"].as_u64().unwrap_or(0) as u32, &mixed_requests(), l);
     }
     let bat = battery();
     let part = case["part"].as_str().unwrap_or("string");
@@ -1557,12 +1563,15 @@ fn check(ctx: &Ctx) -> i32 {
         if seq.is_empty() {
             return;
         }
-        check_mixed(&seq, &mreqs, l);
+        // every assignment of the two loading methods to the positions
+        for single in 0..(1u32 << seq.len()) {
+            check_mixed(&seq, single, &mreqs, l);
+        }
     });
 
     ctx.finish(
         "model_checking",
-        "(a) every string of <= n symbols over the 22-symbol structural alphabet and (b) every single edit (delete / insert / substitute, 33 symbols, every character position; thorough: also every two-symbol insertion) of 140+ frozen real rule spellings, each through parse_filter (2 formats x 3 rule-type options x 2 permission masks), read_list_metadata, CosmeticFilter::parse, NetworkFilter::parse, parse_hosts_style and, when accepted, FilterSet -> Engine -> battery -> serialize: no panic, and per line NetworkOnly/CosmeticOnly keep exactly the rules of their kind; (c) headers with a 1/2/3/4-byte character at every offset around byte 1024; (d) all lists of <= k lines over 13 good + 13 junk lines (and hosts files over 6 + 7), LF and CRLF, optimised or not: engine(list) and engine(list minus rejected lines) serialise to the same bytes and answer the battery identically; (e) every spelling of every host entry vs `||host^`: same mask / hostname / pattern and same verdict on every request of the host universe; (f) all lists of <= k good rules under the three rule-type options; (g) all sequences of <= 3 of 10 (blocking line, format) items - same text in both formats, repeats - loaded one add call each into one FilterSet: blocked exactly if a single-line engine blocks. Non-trivial: (a,b) some parser accepts the text; (c) a title is extracted; (d) some line is rejected, some kept and the battery sees an effect; (e) the entry blocks at least one request; (f) the list has both network and cosmetic effects. states = engines built, transitions = queries executed",
+        "(a) every string of <= n symbols over the 22-symbol structural alphabet and (b) every single edit (delete / insert / substitute, 33 symbols, every character position; thorough: also every two-symbol insertion) of 140+ frozen real rule spellings, each through parse_filter (2 formats x 3 rule-type options x 2 permission masks), read_list_metadata, CosmeticFilter::parse, NetworkFilter::parse, parse_hosts_style and, when accepted, FilterSet -> Engine -> battery -> serialize: no panic, and per line NetworkOnly/CosmeticOnly keep exactly the rules of their kind; (c) headers with a 1/2/3/4-byte character at every offset around byte 1024; (d) all lists of <= k lines over 13 good + 13 junk lines (and hosts files over 6 + 7), LF and CRLF, optimised or not: engine(list) and engine(list minus rejected lines) serialise to the same bytes and answer the battery identically; (e) every spelling of every host entry vs `||host^`: same mask / hostname / pattern and same verdict on every request of the host universe; (f) all lists of <= k good rules under the three rule-type options; (g) all sequences of <= 3 of 10 (blocking line, format) items - same text in both formats, repeats - loaded one call each (add_filter_list or add_filter, every assignment) into one FilterSet: blocked exactly if a single-line engine blocks. Non-trivial: (a,b) some parser accepts the text; (c) a title is extracted; (d) some line is rejected, some kept and the battery sees an effect; (e) the entry blocks at least one request; (f) the list has both network and cosmetic effects. states = engines built, transitions = queries executed",
         &[
             "css-validation is off (baseline configuration): selectors are not validated at parse time",
             "hosts entries that the hosts parser refuses (localhost, bare TLD, trailing dot, forbidden characters) or whose `||host^` is not a rule: Unspecified (executed, counted, not compared)",
